@@ -14,7 +14,7 @@ TOL = 1e-12
 
 
 def setup(ctx):
-    ctx.require("euler1d", "shallowwater", "nozzle-geometric", "nozzle-constant-section", "nozzle-user-sources", "called-once")
+    ctx.require("euler1d", "shallowwater", "nozzle-geometric", "nozzle-constant-section", "nozzle-user-sources", "called-once", "nozzle-interleaved")
 
 
 class Counted:
@@ -122,7 +122,14 @@ def nozzle_geometric(ctx, rng, idx):
     modeln = euler.nozzle(sec, gamma=gam)
     gen.maybe_decoy(rng)
     discn = md.fvm(modeln, s0.mesh, s0.num, numflux=s0.flux, bcL=s0.bcL, bcR=s0.bcR)
-    ctx.describe(section=sec.desc, **s0.desc())
+    interleaved = bool(rng.random() < 0.4)
+    ctx.describe(section=sec.desc, same_model_object_discretised_on_another_mesh_before_use=interleaved, **s0.desc())
+    if interleaved:
+        # the SAME nozzle model object is handed to a second discretisation on another mesh (same or other cell count) after the one
+        # under test was built and before it is used: the geometric source of the first one must still be that of ITS mesh
+        mesh2, _ = gen.mesh1d(rng, ncell=s0.mesh.ncell if rng.random() < 0.6 else None)
+        md.fvm(modeln, mesh2, s0.num, numflux=s0.flux, bcL=s0.bcL, bcR=s0.bcR)
+        ctx.ev("nozzle-interleaved")
     R0 = [r.copy() for r in s0.disc.rhs(s0.field)]
     fn = gen.fdata_prim(modeln, s0.mesh, s0.prim)
     Rn = [r.copy() for r in discn.rhs(fn)]
@@ -138,7 +145,8 @@ def nozzle_geometric(ctx, rng, idx):
         ctx.true("nozzle-constant-section", same, "nozzle/constant-section-source-not-zero", {"max diff": max(np.max(np.abs(a - b)) for a, b in zip(Rn, R0))}, cls="nozzle-constant-section")
     for i in range(3):
         sc = max(np.max(np.abs(R0[i])), np.max(np.abs(exp[i]))) + 1e-300
-        ctx.close("nozzle-geometric", np.max(np.abs((Rn[i] - R0[i]) - exp[i])) / sc, 1e-11, "nozzle/geometric-source-wrong/eq%d" % i, {"section": sec.desc}, cls="nozzle-geometric")
+        ctx.close("nozzle-geometric", np.max(np.abs((Rn[i] - R0[i]) - exp[i])) / sc, 1e-11, "nozzle/geometric-source-wrong/eq%d%s" % (i, "/model-object-discretised-on-another-mesh-in-between" if interleaved else ""),
+                  {"section": sec.desc}, cls="nozzle-geometric")
     ctx.nontrivial("nozzle", sec.desc, s0.desc())
 
 
